@@ -37,9 +37,14 @@ func zzStubUConnHandshake(c *UConn) error {
 //verif:stub (*math/rand.Rand).Shuffle zzStubShuffleOneSwap
 //verif:expect connected exhausted dialerror
 //verif:assume net.DialTimeout and (*UConn).Handshake are stubs with arbitrary outcomes; Shuffle performs zero or one legal swap; one goroutine (concurrent Dial calls are outside the technique)
-//verif:doc Roller.Dial with 1..3 distinct configured ids, WorkingHelloID nil / one of them / a foreign id, an arbitrary attempt that succeeds (or none) and an arbitrary dial that fails (or none): the first attempt uses the working id if there is one; no id is attempted twice; Dial returns at the first success with SNI set to the given name on every attempt and records that id; a dial error is returned immediately.
+//verif:doc Roller.Dial with 1..3 distinct configured ids (different parrots, or randomized ids that differ only in their seed), WorkingHelloID nil / one of them / a foreign id, an arbitrary attempt that succeeds (or none) and an arbitrary dial that fails (or none): the first attempt uses the working id if there is one; no id is attempted twice; Dial returns at the first success with SNI set to the given name on every attempt and records that id; a dial error is returned immediately.
 func zzC29RollerOrderAndStop() {
 	pool := []ClientHelloID{HelloChrome_100, HelloFirefox_105, HelloIOS_14}
+	if verifBool("ids-differ-only-in-seed") {
+		// configured ids may share client and version and differ only in their seed
+		sa, sb, sc := &PRNGSeed{1}, &PRNGSeed{2}, &PRNGSeed{3}
+		pool = []ClientHelloID{{helloRandomized, helloAutoVers, sa, nil}, {helloRandomized, helloAutoVers, sb, nil}, {helloRandomized, helloAutoVers, sc, nil}}
+	}
 	foreign := HelloEdge_106
 	n := 1 + verifChoice("nids", 3)
 	r := &Roller{HelloIDs: append([]ClientHelloID{}, pool[:n]...), r: zzNewSymPRNG(), TcpDialTimeout: time.Second, TlsHandshakeTimeout: time.Second}
